@@ -21,6 +21,7 @@ CONSTANTS
  EnforceNew = %s
  Variant = "%s"
  StartWithMain = %s
+ Overwrite = TRUE
  Names <- MCNames
  MainFile = "main"
  Dirs <- MCDirs
